@@ -22,8 +22,7 @@ OPS = ("rows-yield", "rows-continue", "rows-raise", "validate", "writer", "reade
 BASELINE_OP = {"unused-reader-dropped-midrun": "reader-late"}
 
 
-class HarnessOutOfDate(BaseException):
-    """raised when the white-box part of this harness no longer matches the implementation (reported as exit 3)"""
+from vlib.engine import HarnessOutOfDate  # noqa: E402  (white-box part out of date: exit 3, never a silent pass)
 
 
 def inject(cid, has_a, has_b, la, lb, ca, cb):
@@ -261,20 +260,20 @@ def make(op, nrows):
 
         def history(cid):
             if earlier:
-                saved = cid.data_format._header
-                cid.data_format._header = 0  # the earlier data set had no header rows
+                saved = cid.data_format.header
+                rf.set_header(cid, 0)  # the earlier data set had no header rows
                 r = validio.Reader(cid, earlier, on_error="continue")
                 for _ in r.rows():
                     pass  # abandoned: never closed
-                cid.data_format._header = saved
+                rf.set_header(cid, saved)
 
         lim = args["limit"] if args.get("has_limit") else None
         with patched(*rf.srows_patches()):
             fresh = interface.create_cid_from_string(CID_TEXT)
-            fresh.data_format._header = args.get("header", 0)
+            rf.set_header(fresh, args.get("header", 0))
             expected = operate(fresh, BASELINE_OP.get(op, op), rows, limit=lim)
             used = interface.create_cid_from_string(CID_TEXT)
-            used.data_format._header = args.get("header", 0)
+            rf.set_header(used, args.get("header", 0))
             got = operate(used, op, rows, dirty=lambda: history(used), limit=lim)
         bad = not same(got, expected)
         return bad, "history: read %r without closing, then %s (header %r, limit %r) on %r -> %r ; on a fresh CID -> %r" % (
